@@ -176,7 +176,7 @@ def check(pid, tier, spec):
     ensure_built()
     seed = int(os.environ.get("VERIF_SEED", "0") or 0)
     workdir = tempfile.mkdtemp(prefix="verif_%s_" % pid)
-    evid_dir = os.path.join(VERIF, "evidence")
+    evid_dir = os.environ.get("VERIF_EVIDENCE_DIR") or os.path.join(VERIF, "evidence")
     os.makedirs(evid_dir, exist_ok=True)
     units = [u for u in spec["units"] if tier in u.get("tiers", ["quick", "thorough"])]
     jobs = []
@@ -252,7 +252,7 @@ def check(pid, tier, spec):
     # replay findings natively
     known = load_known()
     violations, known_hits, disagreements = [], {}, []
-    rep_dir = os.path.join(VERIF, "replays", pid)
+    rep_dir = os.path.join(os.environ.get("VERIF_REPLAY_DIR") or os.path.join(VERIF, "replays"), pid)
     seen_labels = {}
     nrep = 0
     for f in findings:
